@@ -194,6 +194,17 @@ func judge(c *mc.Ctx, sc scenario, o *obs, ch *mc.Chooser) {
 		return map[string]interface{}{"scenario": sc, "what": what, "events": o.log, "choices": ch.Choices()}
 	}
 	overlap := false
+	for _, e := range o.log {
+		if e.Kind == "start" && e.After >= 2 {
+			overlap = true
+		}
+	}
+	if overlap {
+		c.Nontrivial(fmt.Sprint(sc, ch.Choices()))
+		if c.WantSample() {
+			c.Sample(map[string]interface{}{"scenario": sc, "schedule": ch.Labels(), "events": len(o.log)})
+		}
+	}
 	lastCan := map[int]int{} // thread -> index of its last can+ event
 	for i, e := range o.log {
 		if int32(e.After) != e.Ctr {
@@ -208,9 +219,6 @@ func judge(c *mc.Ctx, sc scenario, o *obs, ch *mc.Chooser) {
 			}
 			lastCan[e.Thread] = i
 		case "start":
-			if e.After >= 2 {
-				overlap = true
-			}
 			if int32(e.After) > sc.Max {
 				// explained iff another thread's start lies inside this thread's window
 				explained := false
@@ -235,11 +243,5 @@ func judge(c *mc.Ctx, sc scenario, o *obs, ch *mc.Chooser) {
 	}
 	if o.th.VerifCounter() != 0 {
 		c.Violation("counter-not-zero-at-quiescence", detail("counter != 0 after all tasks ended"), ch.Choices())
-	}
-	if overlap {
-		c.Nontrivial(fmt.Sprint(sc, ch.Choices()))
-		if c.WantSample() {
-			c.Sample(map[string]interface{}{"scenario": sc, "schedule": ch.Labels(), "events": len(o.log)})
-		}
 	}
 }
